@@ -2,7 +2,7 @@
    A. finish appends exactly one End; the declared locals expand to the requested list; add_local ids are consecutive.
    B. the type stored at the function's type id is the requested signature (dedup soundness, any hash order).
    C. one build appends exactly one function item whose id is the returned id; payloads and types persist.
-   D. D08: after a successful convert_local_fn_to_import every later finish_module panics.
+   D. the balance finish_module asserts is kept by every API call (former D08): finish_module never fails.
    E. emission: every function of the model's output is its stored payload.
    F. reflection of [agree]. *)
 From Coq Require Import List Arith NArith ZArith Bool Lia.
@@ -115,7 +115,7 @@ Proof.
 Qed.
 
 (* ------------------------------------------------------------------------------------------ *)
-(* D. D08 *)
+(* D. the assertion of finish_module (former D08) *)
 (* how far functions.len() is behind num_local_functions + imports.num_funcs *)
 Definition behind (m : mst) (k : N) : Prop := lenN (s_items (m_f m)) + k = s_nlocal (m_f m) + s_num (m_f m).
 
@@ -150,66 +150,99 @@ Proof.
   destruct (nthN items' id) as [it|]; [|discriminate]. destruct (it_imp it); intros H; inversion H; subst; cbn; repeat split; exact L.
 Qed.
 
-(* every API call other than a successful conversion keeps the distance; a successful conversion increases it by one *)
-Lemma step_behind m o m' r k : behind m k -> step m o = Ok (m', r) ->
-  match o with
-  | AddLocal SF _ | AddImport SF _ | Delete SF _ => behind m' k
-  | LocalToImport id _ => match nthN (s_items (m_f m)) id with
-                          | Some it => if is_import it then behind m' k else behind m' (k + 1)
-                          | None => True
-                          end
-  | _ => True
-  end.
+(* the counter is the number of function items of kind Local (no API call of this engine turns an import into a local
+   function; FunctionBuilder::replace_import_in_module, which does, is the subject of C10) *)
+Definition nloc (l : list item) : N := lenN (filter is_local l).
+Definition counted (m : mst) : Prop := s_nlocal (m_f m) = nloc (s_items (m_f m)).
+Definition wfb (m : mst) : Prop := behind m 0 /\ counted m.
+
+Lemma nloc_app l x : nloc (l ++ [x]) = nloc l + (if is_local x then 1 else 0).
+Proof. unfold nloc, lenN. rewrite filter_app, app_length. cbn [filter]. destruct (is_local x); cbn [length]; lia. Qed.
+Lemma nloc_upd_same f : (forall a, is_local (f a) = is_local a) -> forall n l, nloc (upd n f l) = nloc l.
 Proof.
-  unfold behind. intros Hb. destruct o as [[]|[]|[]| | | | | |]; cbn [step]; try (intros; exact I).
-  - destruct (N.eqb _ _); [|discriminate]. intros H. inversion H; subst; clear H. cbn. rewrite lenN_app. lia.
-  - unfold push_import. cbn. destruct (N.eqb _ _); [|discriminate]. intros H. inversion H; subst; clear H. cbn. rewrite lenN_app. lia.
+  intros Hf. unfold nloc, lenN. induction n as [|n IH]; intros [|a l]; cbn [upd filter]; try reflexivity.
+  - rewrite Hf. destruct (is_local a); reflexivity.
+  - destruct (is_local a); cbn [length]; rewrite ?Nat2N.inj_succ; specialize (IH l); lia.
+Qed.
+Lemma nloc_upd_to_import x : is_local x = false -> forall n l it, nth_error l n = Some it -> is_local it = true ->
+  nloc (upd n (fun _ => x) l) + 1 = nloc l.
+Proof.
+  intros Hx. unfold nloc, lenN. induction n as [|n IH]; intros [|a l] it Hn Hl; cbn in Hn; try discriminate.
+  - inversion Hn; subst a. cbn [upd filter]. rewrite Hx, Hl. cbn [length]. lia.
+  - cbn [upd filter]. specialize (IH l it Hn Hl). destruct (is_local a); cbn [length]; rewrite ?Nat2N.inj_succ; lia.
+Qed.
+Lemma nloc_pos n l it : nth_error l n = Some it -> is_local it = true -> 0 < nloc l.
+Proof.
+  unfold nloc, lenN. revert l. induction n as [|n IH]; intros [|a l] Hn Hl; cbn in Hn; try discriminate.
+  - inversion Hn; subst a. cbn [filter]. rewrite Hl. cbn [length]. lia.
+  - cbn [filter]. specialize (IH l Hn Hl). destruct (is_local a); cbn [length]; lia.
+Qed.
+
+Lemma nthN_updN_same {A} (f : A -> A) id : forall (l : list A) it, nthN l id = Some it -> nthN (updN id f l) id = Some (f it).
+Proof.
+  unfold nthN, updN. generalize (N.to_nat id) as k. intros k.
+  induction k as [|k IH]; intros [|a l] it H; cbn in H; try discriminate; cbn [upd nth_error].
+  - inversion H; reflexivity.
+  - apply IH. exact H.
+Qed.
+Lemma delete_in_nloc m id m' : delete_in m SF id = Ok m' -> nloc (s_items (m_f m')) = nloc (s_items (m_f m))
+  /\ forall it, nthN (s_items (m_f m)) id = Some it -> nthN (s_items (m_f m')) id = Some (set_del true it).
+Proof.
+  unfold delete_in. cbn [get_sp set_sp].
+  destruct (N.ltb_spec id (lenN (s_items (m_f m)))) as [Hlt|Hge].
+  - destruct (nthN (updN id (set_del true) (s_items (m_f m))) id) as [it|]; [|discriminate].
+    destruct (it_imp it); intros H; inversion H; subst; cbn [m_f s_items];
+      (split; [unfold updN; apply nloc_upd_same; intros a; reflexivity | apply nthN_updN_same]).
+  - destruct (nthN (s_items (m_f m)) id) as [it|] eqn:E; [|discriminate].
+    exfalso. unfold nthN in E. assert (Hn : (N.to_nat id < length (s_items (m_f m)))%nat) by (apply nth_error_Some; rewrite E; discriminate).
+    unfold lenN in Hge. lia.
+Qed.
+
+(* every API call of this engine keeps the module balanced and counted: since the repair of D08 a conversion takes one
+   off num_local_functions while add_import adds one to imports.num_funcs *)
+Lemma step_wfb m o m' r : wfb m -> step m o = Ok (m', r) ->
+  match o with AddLocal SF _ | AddImport SF _ | Delete SF _ | LocalToImport _ _ => wfb m' | _ => True end.
+Proof.
+  unfold wfb, behind, counted. intros [Hb Hc]. destruct o as [[]|[]|[]| | | | | |]; cbn [step]; try (intros; exact I).
+  - destruct (N.eqb _ _); [|discriminate]. intros H. inversion H; subst; clear H. cbn. rewrite lenN_app, nloc_app. cbn. lia.
+  - unfold push_import. cbn. destruct (N.eqb _ _); [|discriminate]. intros H. inversion H; subst; clear H. cbn.
+    rewrite lenN_app, nloc_app. cbn. lia.
   - destruct (delete_in m SF id) as [m1|] eqn:E; [|discriminate]. intros H. inversion H; subst; clear H.
-    destruct (delete_in_f _ _ _ E) as (A & B & C). rewrite A, B, C. exact Hb.
-  - destruct (nthN (s_items (m_f m)) id) as [it|]; [|discriminate].
-    destruct (is_import it).
-    + intros H. inversion H; subst. exact Hb.
+    destruct (delete_in_f _ _ _ E) as (A & B & C). destruct (delete_in_nloc _ _ _ E) as (D & _). rewrite A, B, C, D. split; assumption.
+  - destruct (nthN (s_items (m_f m)) id) as [it|] eqn:En; [|discriminate].
+    destruct (is_import it) eqn:Ei.
+    + intros H. inversion H; subst. split; assumption.
     + destruct (delete_in m SF id) as [m1|] eqn:E; [|discriminate]. unfold push_import. cbn. intros H. inversion H; subst; clear H.
-      destruct (delete_in_f _ _ _ E) as (A & B & C). cbn. rewrite lenN_updN, A, B, C. lia.
+      destruct (delete_in_f _ _ _ E) as (A & B & C). destruct (delete_in_nloc _ _ _ E) as (D & F). cbn.
+      assert (Hl : is_local it = true) by (unfold is_import in Ei; destruct (is_local it); [reflexivity|discriminate]).
+      specialize (F it En). unfold nthN in F, En.
+      pose proof (nloc_upd_to_import (mkItem id (Some (lenN (m_imports m1))) false fp) eq_refl _ _ _ F Hl) as U.
+      pose proof (nloc_pos _ _ _ En Hl) as P.
+      rewrite (lenN_updN (fun _ => mkItem id (Some (lenN (m_imports m1))) false fp) id), A, B, C. unfold updN. rewrite D in U. lia.
 Qed.
-
-Lemma bstep_behind s o s' r k : behind (b_m s) k -> 0 < k -> bstep s o = Ok (s', r) -> exists k', behind (b_m s') k' /\ 0 < k'.
+Lemma bstep_wfb s o s' r : wfb (b_m s) -> bstep s o = Ok (s', r) -> wfb (b_m s').
 Proof.
-  intros Hb Hk. destruct o; cbn [bstep].
-  - destruct (add_type _ _). rewrite (unbalanced_build_panics _ fp k Hb Hk). discriminate.
-  - destruct (step (b_m s) (AddImport SF fp)) as [[m r']|] eqn:E; [|discriminate]. intros H. inversion H; subst. cbn.
-    exists k. split; [exact (step_behind _ _ _ _ _ Hb E)|exact Hk].
-  - destruct (step (b_m s) (Delete SF id)) as [[m r']|] eqn:E; [|discriminate]. intros H. inversion H; subst. cbn.
-    exists k. split; [exact (step_behind _ _ _ _ _ Hb E)|exact Hk].
-  - destruct (step (b_m s) (LocalToImport id fp)) as [[m r']|] eqn:E; [|discriminate]. intros H. inversion H; subst. cbn.
-    pose proof (step_behind _ _ _ _ _ Hb E) as P. cbn in P.
-    destruct (nthN (s_items (m_f (b_m s))) id) as [it|] eqn:En.
-    + destruct (is_import it); [exists k | exists (k + 1)]; split; try exact P; lia.
-    + cbn [step] in E. rewrite En in E. discriminate.
+  intros W. destruct o; cbn [bstep].
+  - destruct (add_type _ _). destruct (step (b_m s) (AddLocal SF fp)) as [[m r']|] eqn:E; [|discriminate]. intros H. inversion H; subst. cbn.
+    exact (step_wfb _ _ _ _ W E).
+  - destruct (step (b_m s) (AddImport SF fp)) as [[m r']|] eqn:E; [|discriminate]. intros H. inversion H; subst. cbn. exact (step_wfb _ _ _ _ W E).
+  - destruct (step (b_m s) (Delete SF id)) as [[m r']|] eqn:E; [|discriminate]. intros H. inversion H; subst. cbn. exact (step_wfb _ _ _ _ W E).
+  - destruct (step (b_m s) (LocalToImport id fp)) as [[m r']|] eqn:E; [|discriminate]. intros H. inversion H; subst. cbn. exact (step_wfb _ _ _ _ W E).
 Qed.
-Lemma brun_behind : forall h s rets s' rets' k, behind (b_m s) k -> 0 < k -> brun s h rets = (s', rets', false) ->
-  exists k', behind (b_m s') k' /\ 0 < k'.
+Theorem brun_wfb : forall h s rets s' rets' p, wfb (b_m s) -> brun s h rets = (s', rets', p) -> wfb (b_m s').
 Proof.
-  induction h as [|o h IH]; intros s rets s' rets' k Hb Hk H; cbn [brun] in H.
-  - inversion H; subst. exists k. split; assumption.
-  - destruct (bstep s o) as [[s1 r]|] eqn:E; [|inversion H].
-    destruct (bstep_behind _ _ _ _ _ Hb Hk E) as (k1 & Hb1 & Hk1). eapply IH; eassumption.
+  induction h as [|o h IH]; intros s rets s' rets' p W H; cbn [brun] in H.
+  - inversion H; subst. exact W.
+  - destruct (bstep s o) as [[s1 r]|] eqn:E; [|inversion H; subst; exact W].
+    eapply IH; [exact (bstep_wfb _ _ _ _ W E)|exact H].
 Qed.
-
-(* D08, stated on the model: on a balanced module (every parsed module is), once convert_local_fn_to_import has
-   converted a local function, every finish_module that follows -- after any further calls -- panics *)
-Theorem D08_build_panics_after_conversion s id fpi it s1 r h rets s2 rets2 fp params results locs body name :
-  behind (b_m s) 0 ->
-  nthN (s_items (m_f (b_m s))) id = Some it -> is_local it = true ->
-  bstep s (BLocalToImport id fpi) = Ok (s1, r) ->
-  brun s1 h rets = (s2, rets2, false) ->
-  bstep s2 (BBuild fp params results locs body name) = Panic 2.
+(* on such a module finish_module never fails: after any history of builds, import additions, deletions and
+   conversions (the former D08: every build after a conversion used to panic) *)
+Theorem build_succeeds s fp params results locs body name :
+  wfb (b_m s) -> exists s' r, bstep s (BBuild fp params results locs body name) = Ok (s', r).
 Proof.
-  intros Hb Hn Hl H1 Hrun. cbn [bstep] in H1.
-  destruct (step (b_m s) (LocalToImport id fpi)) as [[m r']|] eqn:E; [|discriminate]. inversion H1; subst; clear H1.
-  pose proof (step_behind _ _ _ _ _ Hb E) as P. cbn in P. rewrite Hn in P. unfold is_import in P. rewrite Hl in P. cbn in P.
-  destruct (brun_behind h (mkB m (b_ts s) (b_fpay s)) rets s2 rets2 1 P ltac:(lia) Hrun) as (k' & Hb' & Hk').
-  cbn [bstep]. destruct (add_type _ _). rewrite (unbalanced_build_panics _ fp k' Hb' Hk'). reflexivity.
+  intros [Hb _]. cbn [bstep]. destruct (add_type _ _) as [tid ts'].
+  apply build_needs_balance with (fp := fp) in Hb. destruct Hb as [[m r] E]. rewrite E. eexists. eexists. reflexivity.
 Qed.
 
 (* the base module of every case is balanced *)
@@ -226,6 +259,24 @@ Proof.
   unfold lenN at 1. rewrite app_length, Nat2N.inj_add. fold (lenN (imp_items 0 0 0 (b_imports (to_rcase c)))).
   fold (lenN (loc_items (lenN (imp_items 0 0 0 (b_imports (to_rcase c)))) (b_funcs (to_rcase c)))).
   rewrite loc_items_len. lia.
+Qed.
+
+Lemma imp_items_nloc : forall l code pos k, nloc (imp_items code pos k l) = 0.
+Proof.
+  unfold nloc, lenN. induction l as [|[c fp] l IH]; intros code pos k; cbn [imp_items]; [reflexivity|].
+  destruct (N.eqb c code); [cbn [filter is_local it_imp]|]; apply IH.
+Qed.
+Lemma loc_items_nloc : forall l pos, nloc (loc_items pos l) = lenN l.
+Proof.
+  unfold nloc, lenN. induction l as [|fp l IH]; intros pos; cbn [loc_items]; [reflexivity|].
+  cbn [filter is_local it_imp length]. rewrite !Nat2N.inj_succ. f_equal. apply IH.
+Qed.
+Lemma nloc_app2 a b : nloc (a ++ b) = nloc a + nloc b.
+Proof. unfold nloc, lenN. rewrite filter_app, app_length. lia. Qed.
+Theorem base_wfb (c : bcase) : wfb (b_m (bbase c)).
+Proof.
+  split; [apply base_balanced|]. unfold counted, bbase, mk_base, mk_space. cbn [b_m m_f s_items s_nlocal].
+  rewrite nloc_app2, imp_items_nloc, loc_items_nloc. reflexivity.
 Qed.
 
 (* ------------------------------------------------------------------------------------------ *)
